@@ -262,3 +262,53 @@ Example C11_host_verdict_examples :
   [mk_frh false false false; mk_frh false true false; mk_frh false true false; mk_frh false false false;
    mk_frh true false false; mk_frh false false false; mk_frh false false true; mk_frh false true true].
 Proof. vm_compute. reflexivity. Qed.
+
+(* ==== HISTORY LEVEL (PFramingHist*.v): the indicators on the transaction the caller sees, however the request reaches the parser ====
+   For EVERY request of the wire grammar -- well-formed request line, grammar fields with ANY combination of Content-Length / Transfer-Encoding / Host fields,
+   CONNECT included, no repetition-cap premise --, every folding of the field values and EVERY non-empty chunking of the header part (request line, fields, empty
+   line), callbacks answering OK: exactly one transaction, and each of SMUGGLING, INVALID_T_E, INVALID_C_L, REQUEST_INVALID, HOST_MISSING, HOST_AMBIGUOUS,
+   HOSTH_INVALID is set on it EXACTLY when the table-level decision (fr_verdict / fr_host_verdict of the theorems above) says so; the transfer coding is the
+   table's; the three extracted checkers accept. The request-line stage never raises any of these bits. With an identity or chunked body following, the
+   same holds at REQUEST_COMPLETE in every chunking of the whole request. No chunking or folding changes an indicator. *)
+Require Import Htp.Model.Base Htp.Model.MBstr Htp.Model.MUri Htp.Model.MPath Htp.Model.MUrlenc Htp.Model.MConnTypes Htp.Model.MTxCommon Htp.Model.MReqLine Htp.Model.MReqUri Htp.Model.MTxReq.
+Require Import Htp.Model.MReq Htp.Model.MRes Htp.Model.MConnp.
+Require Import Htp.Spec.SWire Htp.Spec.SBody Htp.Spec.SFraming Htp.Proof.PWire Htp.Proof.PWireHdr Htp.Proof.PWireBlock Htp.Proof.PWireConn Htp.Proof.PWireExch.
+Require Import Htp.Proof.PWireRun Htp.Proof.PWirePres Htp.Proof.PWireGlue Htp.Proof.PSeg Htp.Proof.PSegLine Htp.Proof.PSegHdr Htp.Proof.PSegGen Htp.Proof.PSegRun.
+Require Import Htp.Proof.PSegFold Htp.Proof.PSegPipe Htp.Proof.PBody Htp.Proof.PBodyReq Htp.Proof.PSegBody Htp.Proof.PSegChunked Htp.Proof.PSegChunkedGen Htp.Proof.PSegChunkedRun.
+Require Import Htp.Proof.PFraming Htp.Proof.PFramingHist Htp.Proof.PFramingHistLine.
+Require Import Htp.Proof.PFramingHistThm.
+Theorem C11_indicators_any_chunking : forall cb g r (cuts : list (list bytes)) (chunks : list bytes),
+  wr_all_ok cb -> g_allow_space_uri g = false -> fh_req_ok r = true -> sg_cuts_ok r cuts = true -> sg_fold_fits g r cuts = true ->
+  Forall (fun x => x <> []) chunks -> concat chunks = sg_fold_wire r cuts ->
+  exists t nu, c_txs (fst (cp_run cb g connp_new (OpOpen :: map OpReqData chunks))) = [Some t] /\ t_parsed_uri t = Some nu /\
+    fh_ind_of (t_flags t) = fh_ind_tables (fh_verdict r) (fr_host_verdict (fh_proto r) (u_host nu) (u_port_number nu) (fr_host_value (fh_fields_of r))) /\
+    t_request_transfer_coding t = fr_coding_num (frv_coding (fh_verdict r)) /\
+    fr_check (fh_proto r) (fh_fields_of r) (t_flags t) (t_request_transfer_coding t) = true /\
+    fr_check_host (fh_proto r) (u_host nu) (u_port_number nu) (fh_fields_of r) (t_flags t) = true /\
+    fr_check_table (fh_fields_of r) (map fr_hdr3 (t_request_headers t)) = true.
+Proof. exact fh_request_indicators. Qed.
+Print Assumptions C11_indicators_any_chunking.
+Theorem C11_indicators_with_identity_body : forall cb g r (cuts : list (list bytes)) (body : bytes) (chunks : list bytes),
+  wr_all_ok cb -> g_allow_space_uri g = false -> sg_body_ok g r body = true -> sg_cuts_ok r cuts = true -> sg_fold_fits g r cuts = true ->
+  Forall (fun x => x <> []) chunks -> concat chunks = sg_fold_wire r cuts ++ body ->
+  exists t nu, c_txs (fst (cp_run cb g connp_new (OpOpen :: map OpReqData chunks))) = [Some t] /\ t_parsed_uri t = Some nu /\
+    t_request_progress t = c_HTP_REQUEST_COMPLETE /\
+    fh_ind_of (t_flags t) = fh_ind_tables (fh_verdict r) (fr_host_verdict (fh_proto r) (u_host nu) (u_port_number nu) (fr_host_value (fh_fields_of r))) /\
+    t_request_transfer_coding t = c_HTP_CODING_IDENTITY /\
+    fr_check (fh_proto r) (fh_fields_of r) (t_flags t) (t_request_transfer_coding t) = true /\
+    fr_check_host (fh_proto r) (u_host nu) (u_port_number nu) (fh_fields_of r) (t_flags t) = true.
+Proof. exact fh_request_body_indicators. Qed.
+Theorem C11_indicators_with_chunked_body : forall cb g r (cuts : list (list bytes)) (ks : list bd_chunk) (last : bytes) (tr : list wr_field)
+    (tcuts : list (list bytes)) (chunks : list bytes),
+  wr_all_ok cb -> g_allow_space_uri g = false -> sg_chunked_ok g r = true -> sg_cuts_ok r cuts = true -> sg_fold_fits g r cuts = true ->
+  sg_cfbody_ok g ks last tr tcuts = true ->
+  Forall (fun x => x <> []) chunks -> concat chunks = sg_fold_wire r cuts ++ sg_cfbody_wire ks last tr tcuts ->
+  exists t nu, c_txs (fst (cp_run cb g connp_new (OpOpen :: map OpReqData chunks))) = [Some t] /\ t_parsed_uri t = Some nu /\
+    t_request_progress t = c_HTP_REQUEST_COMPLETE /\
+    fh_ind_of (t_flags t) = fh_ind_tables (fh_verdict r) (fr_host_verdict (fh_proto r) (u_host nu) (u_port_number nu) (fr_host_value (fh_fields_of r))) /\
+    t_request_transfer_coding t = c_HTP_CODING_CHUNKED /\
+    fr_check (fh_proto r) (fh_fields_of r) (t_flags t) (t_request_transfer_coding t) = true /\
+    fr_check_host (fh_proto r) (u_host nu) (u_port_number nu) (fh_fields_of r) (t_flags t) = true.
+Proof. exact fh_request_chunked_indicators. Qed.
+Print Assumptions C11_indicators_with_identity_body.
+Print Assumptions C11_indicators_with_chunked_body.
